@@ -541,6 +541,14 @@ impl World {
                     self.cpu.trace.push(Ev::Lidt { base, limit, operand: addr });
                 }
             }
+            Kind::LtrMem { addr } => {
+                if !readable(addr, 2) {
+                    self.cpu.fault(14, format!("ltr operand at {addr:#x} is not mapped"));
+                } else {
+                    let sel = (addr as *const u16).read_unaligned();
+                    self.cpu.ltr(sel);
+                }
+            }
             Kind::Ltr { gpr } => {
                 let sel = ctx.get(gpr) as u16;
                 self.cpu.ltr(sel);
